@@ -26,9 +26,9 @@ def inventory_tie():
     broken = []
     cur = effects.static_inventory()
     ref = json.load(open(os.path.join(common.VERIF, 'shared_state.json')))
-    for sect in ('module_objects', 'instance_state'):
-        for k in sorted(set(cur[sect]) | set(ref[sect])):
-            if cur[sect].get(k) != ref[sect].get(k):
+    for sect in ('module_objects', 'instance_state', 'function_state'):
+        for k in sorted(set(cur[sect]) | set(ref.get(sect, {}))):
+            if cur[sect].get(k) != ref.get(sect, {}).get(k):
                 broken.append(f'shared-state inventory changed at {k}: committed {ref[sect].get(k)} now {cur[sect].get(k)}')
     return broken, {'inventory_objects': len(cur['module_objects']), 'inventory_instance_attrs': len(cur['instance_state'])}
 
@@ -58,12 +58,15 @@ def oracle(tier, rng, seeds):
     if dpairs:
         # every line event between a touch of the shared object and the end of that frame (callees included), B running through the same code
         f0, s0 = effects.preemption_search(rng, dpairs, 400 if tier == 'quick' else 3000, hot=crit, only_hot=True, stop_after=1)
+        if not f0:
+            f0, s0b = effects.preemption_search(rng, dpairs, 400 if tier == 'quick' else 3000, hot=crit, only_hot=True, stop_after=1, warm=True)
+            s0['preemption_points'] += s0b['preemption_points']
     f1, s1 = effects.preemption_search(rng, ('auto', pairs, 6 if tier == 'quick' else 30), 60 if tier == 'quick' else 250, hot=crit)
     f1 = f0 + f1
     s1['preemption_points'] += s0['preemption_points']
     s1['directed_pairs'] = len(dpairs); s1['directed_points'] = s0['preemption_points']; s1['hot_functions'] = reach
     for f in f1:
-        fails.append(Failure(f['what'], {'kind': 'preempt', 'A': f['A'], 'B': f['B'], 'k': f['k']}))
+        fails.append(Failure(f['what'], {'kind': 'preempt', 'A': f['A'], 'B': f['B'], 'k': f['k'], 'warm': f.get('warm', False)}))
     f2, s2 = effects.thread_soak(rng, 120 if tier == 'quick' else 1000, 8, 2 if tier == 'quick' else 4)
     for f in f2:
         fails.append(Failure(f['what'], {'kind': 'soak', 'call': f['call']}))
@@ -76,7 +79,7 @@ def replay(f):
     if d['kind'] == 'preempt':
         A = (d['A'][0], tuple(tuple(x) if isinstance(x, list) and len(x) == 2 and all(isinstance(y, float) for y in x) else x for x in d['A'][1]))
         B = (d['B'][0], tuple(tuple(x) if isinstance(x, list) and len(x) == 2 and all(isinstance(y, float) for y in x) else x for x in d['B'][1]))
-        fl, _ = effects.preemption_search(random.Random(0), [(A, B)], 100000)
+        fl, _ = effects.preemption_search(random.Random(0), [(A, B)], 100000, warm=d.get('warm', False))
         return bool(fl)
     fl, _ = effects.thread_soak(random.Random(0), 200)
     return bool(fl)
